@@ -934,6 +934,10 @@ impl ServiceRunner {
                 let h = inst.query.take().unwrap();
                 let r = self.rt.as_ref().unwrap().block_on(h).unwrap_or_else(|_| "panic".into());
                 s.push_str(" qfin");
+                // C09: a lookup that ends hands its result (possibly empty) to the caller
+                if r == "err" || r == "panic" {
+                    s.push_str(&format!("\n!MON C09 lookup-ended-without-handing-over-a-result outcome={}", r));
+                }
                 s.push_str(&format!("\n!INFO query-result {}", r));
             }
         }
@@ -2375,6 +2379,8 @@ pub fn gen_case(rng: &mut Rng, tier: &str, profile: &str, stats: &mut Stats) -> 
     let mut ops = Vec::new();
     let p = match profile {
         "C11" | "C12" | "C14" | "C17" => profile,
+        // C09 / C10 (service half): lookups driven through the real service
+        "C09" | "C10" => "C11",
         // C01 (service half): routing-table effects of handler reports -> the table-policy scenarios
         "C01" => "C12",
         _ => *rng.pick(&["C11", "C12", "C14", "C17"]),
